@@ -526,12 +526,19 @@ class Doist(tyming.Tymist):
         rdoers = [doer for doer in doers if doer in self.doers] # ensure in .doers
         rdeeds = deque()  # fresh deque for deeds to remove
         deeds = self.deeds  # edit update self.deeds in place
+        ran = 0  # count of removed deeds past marker so already ran this recur
+        marked = False  # True means past run through once marker
         for i in range(len(deeds)):  # iterate once over each deed
             dog, retyme, doer = deeds.popleft()
             if not dog:  # reappend the run through once marker deed
                 deeds.append((dog, retyme, doer))
+                marked = True
             elif doer in rdoers:  # found deed to remove and close
-                rdeeds.append((dog, retyme, doer))  # add to removal deque
+                if marked:  # ran already so entered before those not yet run
+                    rdeeds.insert(ran, (dog, retyme, doer))  # keep enter order
+                    ran += 1
+                else:
+                    rdeeds.append((dog, retyme, doer))  # add to removal deque
             else:  # keep deed do not remove and close
                 deeds.append((dog, retyme, doer))  # reappend
 
@@ -1409,12 +1416,19 @@ class DoDoer(Doer):
         rdoers = [doer for doer in doers if doer in self.doers] # ensure in .doers
         rdeeds = deque()  # fresh deque for deeds to remove
         deeds = self.deeds  # edit update self.deeds in place
+        ran = 0  # count of removed deeds past marker so already ran this recur
+        marked = False  # True means past run through once marker
         for i in range(len(deeds)):  # iterate once over each deed
             dog, retyme, doer = deeds.popleft()
             if not dog:  # reappend the run through once marker deed
                 deeds.append((dog, retyme, doer))
+                marked = True
             elif doer in rdoers:  # found deed to remove and close
-                rdeeds.append((dog, retyme, doer))  # add to removal deque
+                if marked:  # ran already so entered before those not yet run
+                    rdeeds.insert(ran, (dog, retyme, doer))  # keep enter order
+                    ran += 1
+                else:
+                    rdeeds.append((dog, retyme, doer))  # add to removal deque
             else:  # keep deed do not remove and close
                 deeds.append((dog, retyme, doer))  # reappend
 
